@@ -1029,3 +1029,38 @@ theorem bayes_complete_square {Pm : Matrix (Fin n) (Fin n) ℝ} (C : Matrix (Fin
   ring
 end bayes
 end PP.Filter
+
+namespace PP.Filter
+open Matrix Finset
+
+/-! ### pass 10: concentration of the resampling stage (weak law with an explicit rate) -/
+
+section pass10
+variable {M N : Nat}
+
+/-- the expectation over index tuples is monotone (non-negative weights) -/
+theorem expectIdx_mono (w : Fin M → ℝ) (hw0 : ∀ i, 0 ≤ w i) {F G : (Fin N → Fin M) → ℝ} (h : ∀ f, F f ≤ G f) :
+    expectIdx w F ≤ expectIdx w G := by
+  unfold expectIdx
+  exact Finset.sum_le_sum fun f _ => mul_le_mul_of_nonneg_left (h f) (Finset.prod_nonneg fun j _ => hw0 _)
+/-- **Chebyshev bound for the resampling stage**: the probability (independent draws, index `i` with probability `w i`) that the
+mean of the `N` resampled values deviates from the weighted mean by at least `ε` is at most `Var_w(h) / (N ε²)` -/
+theorem resample_mean_chebyshev (w : Fin M → ℝ) (hw0 : ∀ i, 0 ≤ w i) (hw : ∑ i, w i = 1) (hN : 0 < N) (h : Fin M → ℝ)
+    {ε : ℝ} (hε : 0 < ε) :
+    expectIdx (N := N) w (fun f => if ε ≤ |(∑ j, h (f j)) / N - ∑ i, w i * h i| then 1 else 0)
+      ≤ (∑ i, w i * (h i - ∑ i, w i * h i) ^ 2) / (N * ε ^ 2) := by
+  have hε2 : 0 < ε ^ 2 := by positivity
+  have step : ∀ f : Fin N → Fin M,
+      (if ε ≤ |(∑ j, h (f j)) / N - ∑ i, w i * h i| then (1 : ℝ) else 0)
+        ≤ (1 / ε ^ 2) * ((∑ j, h (f j)) / N - ∑ i, w i * h i) ^ 2 := by
+    intro f
+    split_ifs with hc
+    · rw [one_div, inv_mul_eq_div, le_div_iff₀ hε2, one_mul, ← sq_abs ((∑ j, h (f j)) / N - ∑ i, w i * h i)]
+      exact pow_le_pow_left₀ hε.le hc 2
+    · positivity
+  refine (expectIdx_mono w hw0 step).trans (le_of_eq ?_)
+  rw [expectIdx_const_mul, resample_mean_variance w hw hN h]
+  have hN' : (N : ℝ) ≠ 0 := by exact_mod_cast hN.ne'
+  field_simp
+end pass10
+end PP.Filter
